@@ -10,14 +10,18 @@ The translator is cross-checked against the real code in two ways:
   * every ThreadSanitizer race must be a conflicting pair the extraction lists as unbracketed.
 Property oracle (independent of the model): on the traces, a documented shared field changes only
 while its mutex is held, callbacks never arrive with cc.mutex held, mutexes are used well bracketed;
-on the concurrent runs, no ThreadSanitizer report, no torn caption page, no watchdog.
+on the concurrent runs, no ThreadSanitizer report, no torn caption page, no watchdog; at the deterministic schedule
+points (`sched`), a channel switch requested at any release of chswcd_mutex inside vbi_decode() is neither overwritten by
+a stale countdown (lost update) nor left without the documented reset at the next frame.
+Atomicity of read-modify-write sequences: translate/gen_locks_rmw.py -> Generated/LocksRmw.lean, Props/C20Rmw.lean.
 """
 import json, os, re, subprocess, sys
 sys.path.insert(0, os.path.join(os.path.dirname(os.path.abspath(__file__)), "..", "lib"))
 import verif
 
 TSAN_FLAGS = ["-O1", "-g", "-fsanitize=thread", "-fno-omit-frame-pointer"]
-WRAP = ["-Wl,--wrap=pthread_mutex_lock,--wrap=pthread_mutex_unlock,--wrap=pthread_mutex_trylock"]
+WRAP = ["-Wl,--wrap=pthread_mutex_lock,--wrap=pthread_mutex_unlock,--wrap=pthread_mutex_trylock,"
+        "--wrap=vbi_caption_channel_switched"]
 TSAN_ENV = {"TSAN_OPTIONS": "exitcode=0:history_size=7:second_deadlock_stack=1:report_thread_leaks=0"}
 
 # ---------------------------------------------------------------------------------------------
@@ -300,7 +304,8 @@ class C20(verif.Spec):
     comp = "locks"
     # the root first: lake then builds the table parts in parallel, the later entries are no-ops
     lean_modules = ["ZvbiModel.Props.C20", "ZvbiModel.Props.C20TableA", "ZvbiModel.Props.C20TableB",
-                    "ZvbiModel.Props.C20TableC", "ZvbiModel.Props.C20TableD", "ZvbiModel.Props.C20Snapshot"]
+                    "ZvbiModel.Props.C20TableC", "ZvbiModel.Props.C20TableD", "ZvbiModel.Props.C20Snapshot",
+                    "ZvbiModel.Props.C20Rmw"]
     harness = "locks_harness"
     harness_link_lib = True
     timeout_per_case = 5.0
@@ -313,7 +318,15 @@ class C20(verif.Spec):
                     "the source (c1561e0, f194102) and the theorems are stated with noKnown/noSite. In the Cc instance of "
                     "the serialisability theorem the split of one vbi_decode_caption call into the sections between its "
                     "callbacks is a parameter (any split whose composition is Cc.decodePair): the Cc model counts events "
-                    "but does not expose the intermediate states.")
+                    "but does not expose the intermediate states. Atomicity of read-modify-write sequences (no lost update): "
+                    "the dependent read/write pairs are extracted by translate/gen_locks_rmw.py (data and control dependence "
+                    "through locals, parameters and return values of inlined callees, path-insensitive, over-approximating); "
+                    "on the current tree every pair of vbi.chswcd and of the caption dirty regions lies in one critical section "
+                    "except the expiry-clear pair (countdown expires in vbi_decode's section, vbi_chsw_reset clears it in a later "
+                    "one), whose serialisability against vbi_channel_switched is proved on a hand-written value-level shape "
+                    "(expiry_clear_serializable) matched to the source by extracted flags (control dependence, literal 0 stored, "
+                    "read consumed in its own section, every concurrent write stores the literal 1) and by the schedule-point "
+                    "harness, not by a statement-by-statement extraction of the values.")
     assumptions = ["pthread mutexes give mutual exclusion; lock blocks, trylock does not",
                    "at most one thread calls vbi_decode on a decoder (documented: not reentrant)",
                    "event handlers call only vbi_fetch_cc_page / vbi_channel_switched on the decoder",
@@ -324,11 +337,20 @@ class C20(verif.Spec):
                     "written, the callouts and the calls agree with what gcc -fdump-tree-gimple shows, derived by "
                     "type-based provenance in translate/locks_gimple_xcheck.py)",
                     "harness/locks_harness.c + ThreadSanitizer (gcc 12 libtsan) as the runtime detector",
-                    "Locks/Instance.lean: the lock order and the field <-> mutex association"]
-    open_statements = []
+                    "Locks/Instance.lean: the lock order and the field <-> mutex association",
+                    "translate/gen_locks_rmw.py: dependence analysis (taint through locals / parameters / return values, control "
+                    "context, section tokens) on the parser and provenance of gen_locks.py; cross-checked at run time by the "
+                    "schedule-point harness (op `sched`: vbi_channel_switched() after the k-th release of chswcd_mutex inside "
+                    "one vbi_decode() call, outcome judged against the documented `reset at the next frame`)"]
+    open_statements = ["table_rmw_whole_full (every dependent read/write pair in ONE section, no exception): false on the current "
+                       "tree for the expiry-clear pair vbi_decode:463 -> vbi_chsw_reset:560; proved instead: "
+                       "table_rmw_whole_modulo_expiry_clear + expiry_clear_serializable (value-level shape model; what is missing is "
+                       "a mechanical extraction of the guard `--chswcd == 0` and of the stored values into that model)"]
     rule = ("cases = corpus + seeded sequential op streams (caption command scripts incl. XDS and ITV triggers, teletext/VPS "
             "lines, Teletext services with rolling headers whose station name changes with/without announcement, fetch / channel "
-            "switch / raw decoder service changes, malformed op lines) + concurrent role mixes incl. station changes "
+            "switch / raw decoder service changes, malformed op lines) + deterministic schedule points (`sched`: a channel "
+            "switch request after the k-th release of chswcd_mutex inside one vbi_decode call, for every countdown state x "
+            "regular / late frame x k, and random ones with Teletext headers) + concurrent role mixes incl. station changes "
             "(`par`); non-trivial = at least one API trace or concurrent run was produced; distinct by md5 of the op lines")
 
     def gen_cases(self, rng, tier):
@@ -338,6 +360,7 @@ class C20(verif.Spec):
         for k in range(n_seq):
             cases.append(self.station_case(rng) if k % 16 == 7 else self.seq_case(rng, k))
         cases.append(self.malformed_case(rng))
+        cases += self.sched_cases(rng, 40 if quick else 400)
         # concurrent mixes: (threads, handler mode, gap, frames)
         mixes = [("DFF", 1, 97, 2500), ("DFF", 0, 53, 2000), ("DFC", 1, 0, 400), ("DFCF", 3, 61, 250), ("DF", 0, 0, 3000),
                  ("DFFF", 1, 0, 2000), ("DCC", 2, 0, 300), ("RAA", 0, 0, 1500), ("RRA", 0, 0, 1000), ("RAAA", 0, 0, 1500),
@@ -416,6 +439,41 @@ class C20(verif.Spec):
                 if rng.random() < 0.4:       # interleave a caption byte pair on field 2
                     fr.append((284, 0x15, 0x2C))
         return fr
+
+    def sched_cases(self, rng, n_random):
+        """deterministic schedule points: vbi_channel_switched() placed after the k-th release of chswcd_mutex inside one
+        vbi_decode() call, for every countdown state the decoder can be in (idle, just started by dropped frames, running,
+        about to expire, switch already requested) x (regular frame, frame after a time gap) x k; then random ones whose
+        frame carries Teletext page headers (the store_lop() uses of the countdown)"""
+        out = []
+        preludes = [[], ["decode 300"], ["decode 300", "decode 33"], ["decode 300"] + ["decode 33"] * 38,
+                    ["decode 300"] + ["decode 33"] * 39, ["chsw"], ["decode 33", "decode 33"]]
+        for pre in preludes:
+            for dt in (33, 300):
+                for k in (1, 2, 3):
+                    out.append(["handler 0x7fffffff 0", "decode 33"] + pre + ["sched %d %d" % (dt, k), "decode 33", "fetch 1"])
+        for _ in range(n_random):
+            c = ["handler 0x%x %d" % (rng.choice([0x7fffffff, 0x1, 0x1 | 0x10 | 0x40]), rng.choice([0, 1, 3]))]
+            a, b2 = rng.sample(["STATION ONE", "OTHER TV", "ZVBI TEST", "X"], 2)
+            mag = rng.choice([1, 1, 2])
+            n = 0
+            def hdr(station):
+                nonlocal n
+                d = n % 100
+                n += 1
+                return ttx_station_header(mag, (d // 10) * 16 + d % 10, station)
+            for _ in range(rng.randrange(0, 4)):
+                c.append("decode 33 " + hdr(a))
+            c += rng.choice(preludes)
+            items = []
+            for _ in range(rng.randrange(0, 3)):
+                items.append(hdr(rng.choice([a, a, b2])))
+            if rng.random() < 0.3:
+                items.append(cc(0x14, rng.choice([0x25, 0x2C, 0x2D, 0x20, 0x2F])))
+            c.append(("sched %d %d " % (rng.choice([33, 33, 300]), rng.randrange(1, 4)) + " ".join(items)).strip())
+            c += ["decode 33", "fetch 1"]
+            out.append(c)
+        return out
 
     def station_case(self, rng):
         """Teletext service with consistent rolling headers, then the header text changes: in the same magazine
@@ -540,7 +598,7 @@ class C20(verif.Spec):
 
     def malformed_case(self, rng):
         return ["decode", "decode x", "decode 33 c21", "decode 33 c21:zz", "decode 33 c21:808080", "decode 33 q:00",
-                "decode 33 t:00", "fetch", "fetch a", "chsw 1", "raw 1", "add 1 1", "remove 1", "check 1 1", "rawreset",
+                "decode 33 t:00", "fetch", "fetch a", "chsw 1", "sched", "sched 33", "sched 33 x", "sched 33 99", "sched 33 1 q:0", "raw 1", "add 1 1", "remove 1", "check 1 1", "rawreset",
                 "rawinit 1 2 3", "rawinit 625 0x40f 7", "handler 1", "handler 1 9", "par 1 2", "par 1 10 0 0 Q",
                 "par 1 10 0 0 F", "par 1 10 0 0 DT", "bogus", "accept vbi_decode", "resize 1 2 3", "decode -5", "decode 999999999"]
 
@@ -552,6 +610,8 @@ class C20(verif.Spec):
             return "par:" + case[0].split()[-1]
         if case[0] in ("decode",):
             return "malformed"
+        if any(l.startswith("sched ") for l in case):
+            return "sched:" + ("ttx" if any(" t:" in l for l in case if l.startswith("sched ")) else "plain")
         kinds = []
         txt = " ".join(case)
         if "rawinit" in txt:
@@ -567,7 +627,7 @@ class C20(verif.Spec):
         return "seq:" + ("+".join(kinds) or "cc")
 
     def nontrivial(self, case, impl_out):
-        return any(l.startswith("ok vbi_") or l.startswith("ok par") for l in impl_out)
+        return any(l.startswith(("ok vbi_", "ok par", "ok sched")) for l in impl_out)
 
     PROTECT = {"cc.channel": "cc", "vbi.chswcd": "chswcd", "rd3": "rd"}
 
@@ -588,6 +648,8 @@ class C20(verif.Spec):
                     probs.append("torn-snapshot:vbi_fetch_cc_page")
                 if m.get("selfdl", "0") != "0":
                     probs.append("callout-under-cc:vbi_decode")
+            elif l.startswith("ok sched "):
+                probs += self.sched_oracle(l)
             elif l.startswith("ok vbi_"):
                 w = l.split()
                 fn, held = w[1], []
@@ -622,6 +684,32 @@ class C20(verif.Spec):
         known = {k.get("signature") for k in verif.load_known().get("findings", []) if k.get("property") == self.prop}
         probs = sorted(set(probs), key=lambda x: (x in known, x))      # an unknown problem is never hidden by a known one
         return probs[0] if len(probs) == 1 else probs[0] + " (+%d more: %s)" % (len(probs) - 1, ", ".join(probs[1:4]))
+
+    @staticmethod
+    def sched_oracle(line):
+        """documented outcome of vbi_channel_switched(): the reset is executed when the next frame is about to be decoded.
+        A request placed at a release of chswcd_mutex inside vbi_decode() must (1) not be overwritten by a countdown value
+        the decoding thread computed BEFORE the request (lost update: after the request and before the next reset the
+        countdown is 1 = pending, or 0 = expired / cancelled by an unchanged page header), and (2) unless cancelled that
+        way, be followed by a reset in the rest of this frame or at the next frame."""
+        m = dict(kv.split("=", 1) for kv in line.split()[2:])
+        if m.get("inj") != "1":
+            return []
+        at = int(m["at"])
+        v = [int(x) for x in m["v"].split(",")] if m["v"] != "-" else []
+        r = [int(x) for x in m["r"].split(",")] if m["r"] != "-" else []
+        rinj = int(m["rinj"])
+        post = [(v[i], r[i]) for i in range(at, min(len(v), len(r)))]
+        before_reset = [x for (x, rr) in post if rr == rinj]
+        out = []
+        stale = [x for x in before_reset if x not in (0, 1)]
+        if stale:
+            out.append("lost-update:vbi.chswcd:vbi_decode")
+        served = int(m["r1"]) - rinj + int(m["r2"]) >= 1
+        cancelled = 0 in before_reset
+        if not served and not cancelled and not stale:
+            out.append("lost-request:vbi_channel_switched:vbi_decode")
+        return out
 
     def signature(self, case, what):
         w = what.split(" (+")[0]
@@ -668,6 +756,19 @@ class C20(verif.Spec):
             self.extra_coverage["tsan_races_seen"] = sorted({l[5:] for ls in _last_impl.values() for l in ls if l.startswith("race ")})
             self.extra_coverage["tsan_races_not_in_extraction"] = sorted(unpredicted)
         self.extra_coverage["gimple_xcheck"] = dict(_xcheck) if _xcheck else "not run"
+        rmw = os.path.join(verif.CACHE, "locks_rmw.json")
+        if os.path.exists(rmw):
+            t = json.load(open(rmw))
+            self.extra_coverage["rmw_extraction"] = {
+                "sections": ["%s %s:%d r%d w%d" % (x["root"], x["chain"], x["line"], x["reads"], x["writes"]) for x in t["sections"]],
+                "dependent_pairs": ["%s %s: read %s:%d [%s] -> write %s:%d [%s] %s %s const=%s consumed=%s" % (
+                    p["var"], p["root"], p["read_fn"], p["read_line"], p["read_via"], p["write_fn"], p["write_line"], p["write_via"],
+                    p["kind"], "same-section" if p["same"] else "SPLIT", p["const"], p["consumed"]) for p in t["pairs"]],
+                "writes": ["%s %s %s:%d const=%s locked=%s" % (x["var"], x["role"], x["fn"], x["line"], x["const"], x["locked"]) for x in t["writes"]],
+                "region_pairs": t["n_region_pairs"], "region_pairs_split": len(t["region_pairs"])}
+        sl = [l for ls in _last_impl.values() for l in ls if l.startswith("ok sched ")]
+        self.extra_coverage["schedule_points"] = {"sched_ops": len(sl), "injected": len([l for l in sl if " inj=1 " in l]),
+                                                  "max_releases_in_one_call": max([int(l.split()[2][2:]) for l in sl] or [0])}
         parc = [c[0].split() for c in ctx["cases"] if c and c[0].startswith("par ") and len(c[0].split()) == 6 and c[0].split()[2].isdigit()]
         self.extra_coverage["tsan_concurrent_runs"] = {
             "runs": len(parc), "threads": sum(len(w[5]) for w in parc), "frames_per_decode_thread_total": sum(int(w[2]) for w in parc),
